@@ -319,4 +319,67 @@ theorem ineligiblePP_tree_matches_source (rt : List Res → List Payload → Lis
     · simp [hsel, hu]
   · simp [hsel]
 
+/-! ### tick getters (flows/retry.go, flows/logtrigger.go, flows/recovery.go) -/
+
+/-- **`retryTick.Value` is the source's decision tree**: no queue → `nil, nil`; `Dequeue` failed → `nil, error`;
+else what `Dequeue` handed out -/
+theorem sourceTick_tree_matches_source (src : Option (Option (List Payload))) :
+    sourceTick src =
+      match Gen.Src.c12RetryTickTree src.isNone (decide (src = some none)) with
+      | 1 => some []                                                   -- `return nil, nil`
+      | 2 => none                                                      -- `return nil, fmt.Errorf(…)`
+      | _ => src.bind id := by                                         -- `return payloads, err`
+  cases src with
+  | none => rfl
+  | some o => cases o <;> simp [sourceTick, Gen.Src.c12RetryTickTree]
+
+/-- **`logTick.Value`**: no provider → `nil, nil`; else what the provider returned, its error included -/
+theorem logTick_tree_matches_source (src : Option (Option (List Payload))) :
+    sourceTick src =
+      match Gen.Src.c12LogTickTree src.isNone with
+      | 1 => some []                                                   -- `return nil, nil`
+      | _ => src.bind id := by                                         -- `return logs, err`
+  cases src with
+  | none => rfl
+  | some o => cases o <;> simp [sourceTick, Gen.Src.c12LogTickTree]
+
+/-- **`logRecoveryTick.Value`**: the same shape -/
+theorem recoveryTick_tree_matches_source (src : Option (Option (List Payload))) :
+    sourceTick src =
+      match Gen.Src.c12RecoveryTickTree src.isNone with
+      | 1 => some []                                                   -- `return nil, nil`
+      | _ => src.bind id := by                                         -- `return logs, err`
+  cases src with
+  | none => rfl
+  | some o => cases o <;> simp [sourceTick, Gen.Src.c12RecoveryTickTree]
+
+/-- **`coordinatedProposalsTick.Value` is the source's decision tree**: no queue → `nil, nil`; `Dequeue` failed →
+`nil, error`; builder failed → `nil, error`; else the built payloads through the `IsEmpty` loop.  Both `err != nil`
+tests are ONE leaf for the translator (`failed`); it stands for "the call just made failed", and exits 2 and 3 return
+the same. -/
+theorem proposalsTick_tree_matches_source (q : Option (Option (List Proposal)))
+    (build : List Proposal → Option (List Payload)) :
+    proposalsTick q build =
+      match Gen.Src.c12ProposalsTickTree q.isNone
+          (decide (q = some none) || (match q with | some (some props) => (build props).isNone | _ => false)) with
+      | 1 => some []                                                   -- `return nil, nil`
+      | 2 => none                                                      -- `Dequeue`: `return nil, fmt.Errorf(…)`
+      | 3 => none                                                      -- `BuildPayloads`: `return nil, fmt.Errorf(…)`
+      | _ => (q.bind id).bind (fun props => (build props).map skipEmpty) := by   -- `return payloads, nil`
+  cases q with
+  | none => rfl
+  | some o =>
+    cases o with
+    | none => simp [proposalsTick, Gen.Src.c12ProposalsTickTree]
+    | some props => cases hb : build props <;> simp [proposalsTick, Gen.Src.c12ProposalsTickTree, hb]
+
+/-- **one step of the `range builtPayloads` loop is the source's decision tree**: `if p.IsEmpty() { filtered++;
+continue }`, else the payload is appended -/
+theorem skipEmpty_tree_matches_source (p : Payload) (ps : List Payload) :
+    skipEmpty (p :: ps) =
+      match Gen.Src.c12ProposalsTickLoopTree (payloadEmpty p) with
+      | 1 => skipEmpty ps                                              -- `continue`
+      | _ => p :: skipEmpty ps := by                                   -- `payloads = append(payloads, p)`
+  by_cases h : payloadEmpty p = true <;> simp [skipEmpty, Gen.Src.c12ProposalsTickLoopTree, h]
+
 end AutoVerif.C12
